@@ -89,6 +89,9 @@ def run(res, ctx):
         meta.append((k, len(ins), f, ratio, glob))
     ra = corecheck.run_cases(ctx, orig)
     rb = corecheck.run_cases(ctx, split)
+    bst = {"st": collections.Counter(), "diffs": []}
+    proved_bound_corpus(res, ctx, bst)
+    proved_bound_pass(res, ctx, ra, rb, meta, bst)
     for x, y, (k, nins, f, ratio, glob) in zip(ra, rb, meta):
         st["evaluations"] += 1
         for r in (x, y):
@@ -170,6 +173,7 @@ def run(res, ctx):
         "input_distribution": dict(sorted(st.items())),
         "traces_validated_against_impl": 2 * st["evaluations"],
     })
+    proved_bound_report(res, bst)
 
 
 def replay(res, ctx, path):
@@ -196,4 +200,180 @@ def replay(res, ctx, path):
             if not core.close(d["post"][2], e["post"][2], TOL):
                 return ["row %d total cost base %s vs %s" % (j, d["post"][2], e["post"][2])]
         return []
-    return corecheck.replay(res, ctx, path, pair_judge=pair)
+    def pair_with_bound(runs):
+        msgs = pair(runs)
+        if not msgs and "input_original" in runs and "input_with_split" in runs:
+            msgs = _replay_bound(ctx, runs["input_original"], runs["input_with_split"])
+        return msgs
+    return corecheck.replay(res, ctx, path, pair_judge=pair_with_bound)
+
+
+def _replay_bound(ctx, x, y):
+    """the proved-bound pass on a recorded pair: position and number of the inserted split rows are read off
+    the two inputs (the first row that differs is the first inserted one)"""
+    rx, ry = x["case"]["rows"], y["case"]["rows"]
+    sig = lambda r: (r["act"], r["td"], r["sd"], r.get("af"), (r.get("sh") or (None, None))[1], r.get("split"))
+    k = next((i for i in range(len(rx)) if sig(rx[i]) != sig(ry[i])), len(rx))
+    nins = len(ry) - len(rx)
+    if nins < 1 or any(r["act"] != "Split" for r in ry[k:k + nins]):
+        return []
+    ratio = ry[k]["split"]
+    c = corecheck._Collect()
+    proved_bound_pass(c, ctx, [x], [y], [(k, nins, Fraction(ratio[0]) / Fraction(ratio[1]), ratio, False)],
+                      {"st": collections.Counter(), "diffs": []})
+    return c.msgs
+
+
+# ---- the PROVED bound under rounding (C15_dec_split_neutral_bound, coq/Proofs/C15Dec.v; class and per-row
+# constant from entry 2 of the extraction group "dectransfer", as lib/props/c01.py bound_pass) ----
+def _whole_number_reverse(r):
+    return r["act"] == "Split" and "." not in r["split"][0] + r["split"][1] and Fraction(r["split"][0]) < Fraction(r["split"][1])
+
+
+def _structure(sa, sb, k, nins):
+    """the two reports decompose as the theorem says: rows of the original input before read index k, then
+    the inserted split rows (one per affiliate; read indices k..k+nins-1 of the new input, expanded rows of a
+    global split share its index), then the restated rows, in the same order as in the original report.
+    Returns [(i, i')] = index in the original / in the restated report of each paired row, or None"""
+    da, db = sa["deltas"], sb["deltas"]
+    pos = [j for j, d in enumerate(db) if d["act"] == "Split" and k <= d["ri"] <= k + nins - 1]
+    if not pos or pos != list(range(pos[0], pos[0] + len(pos))):
+        return None
+    p, m = pos[0], len(pos)
+    if len(da) + m != len(db):
+        return None
+    if any(d["ri"] >= k for d in da[:p]) or any(d["ri"] < k for d in da[p:]):
+        return None
+    pairs = [(i, i) for i in range(p)] + [(i, i + m) for i in range(p, len(da))]
+    for i, j in pairs:
+        a, b = da[i], db[j]
+        if a["act"] != b["act"] or a["afid"] != b["afid"] or b["ri"] != a["ri"] + (nins if i >= p else 0):
+            return None
+    return pairs
+
+
+def proved_bound_pass(res, ctx, ra, rb, meta, bst, expect=None):
+    """pairs (history, history with a split inserted and the later rows restated) whose two members are both
+    in the accumulation class in_class k and satisfy the hypotheses of C15_inserted_split (no opening
+    position, one split, every affiliate split, no whole-number-only reverse split later, reports decomposed
+    as pre / split rows / restated rows): C15_dec_split_neutral_bound bounds the difference of the ROUNDED
+    gains and cost bases of paired rows (index i / i') by ((i+1) + (i'+1)) * cR k.  The implementation is held
+    to that PROVED bound instead of 1e-9, and so is the extracted rounded model"""
+    from common import run_model
+    from props.c01 import parse_errclass
+    st = bst["st"]
+
+    def classes(rs):
+        enc = [core.to_ints(r["case"], 1)[0] for r in rs]
+        return [parse_errclass(o) for o in run_model([[2] + e[1:] for e in enc], group="dectransfer")]
+    ca, cb = classes(ra), classes(rb)
+    for x, y, pa, pb, (k, nins, f, ratio, glob) in zip(ra, rb, ca, cb, meta):
+        st["pairs_evaluated"] += 1
+        if pa is None or pb is None or 0 not in pa or 0 not in pb:
+            continue
+        (ka, c_a, rows_ea), (kb, c_b, rows_eb) = pa[0], pb[0]
+        if expect is not None and (ka, kb) != expect:
+            bst["diffs"].append((y["hc"], "corpus pair: expected classes %s, entry 2 gives %s" % (expect, (ka, kb))))
+        if ka < 0 or kb < 0:
+            st["outside-class"] += 1
+            continue
+        if x["case"].get("inits") or "x" in ratio[0] or any(_whole_number_reverse(r) for r in x["case"]["rows"][k:]):
+            st["outside-hypotheses"] += 1
+            continue
+        kk, c = max((ka, c_a), (kb, c_b))
+        hit = False
+        for who, a, b in (("impl", x["impl"], y["impl"]), ("model", x["dec"], y["dec"])):
+            if a.get("status") != "ok" or b.get("status") != "ok" or 0 not in a["secs"] or 0 not in b["secs"]:
+                continue
+            sa, sb = a["secs"][0], b["secs"][0]
+            if who == "model":
+                # the extracted model's rows carry no read index: take the structure found on the implementation
+                if not hit or len(sa["deltas"]) != len(x["impl"]["secs"][0]["deltas"]) or len(sb["deltas"]) != len(y["impl"]["secs"][0]["deltas"]):
+                    continue
+            else:
+                if sa["stop"][0] != 0 or sb["stop"][0] != 0 or len(sa["deltas"]) > len(rows_ea) or len(sb["deltas"]) > len(rows_eb):
+                    st["incomplete"] += 1
+                    continue
+                pairs = _structure(sa, sb, k, nins)
+                if pairs is None:
+                    st["not-decomposed"] += 1
+                    continue
+                hit = True
+                st["pairs_inside"] += 1
+                st["k=%d" % kk] += 1
+            for i, j in pairs:
+                d, e = sa["deltas"][i], sb["deltas"][j]
+                bnd = ((i + 1) + (j + 1)) * c
+                bad = None
+                if not core.close(d["gain"], e["gain"], bnd):
+                    bad = ("capital gain", d["gain"], e["gain"])
+                elif not core.close(d["post"][2], e["post"][2], bnd):
+                    bad = ("total cost base", d["post"][2], e["post"][2])
+                if who == "impl":
+                    st["rows_checked"] += 1
+                    dev = max([Fraction(0)] + [abs(u - v) for u, v in ((d["gain"], e["gain"]), (d["post"][2], e["post"][2]))
+                                               if u is not None and v is not None])
+                    if dev > 0:
+                        st["rows_with_different_rounding"] += 1
+                    bst["max_ratio"] = max(bst.get("max_ratio", Fraction(0)), dev / bnd)
+                    bst["max_bound"] = max(bst.get("max_bound", Fraction(0)), bnd)
+                    if bad:
+                        res.violation("failing-input",
+                                      "inserting a %s-for-%s split at position %d changes the %s of row %d from %s to %s: "
+                                      "more than decimal rounding can cause on these histories (proved bound %.3e, k=%d)"
+                                      % (ratio[0], ratio[1], k, bad[0], i, bad[1], bad[2], float(bnd), kk),
+                                      {"input_original": x["hc"], "input_with_split": y["hc"], "position": k, "row": i,
+                                       "proved_bound": str(bnd), "theorem": "C15_dec_split_neutral_bound"})
+                        break
+                elif bad:
+                    bst["diffs"].append((y["hc"], "extracted rounded model: %s of row %d %s vs %s exceeds %s" % (bad[0], i, bad[1], bad[2], bnd)))
+                    break
+
+
+def proved_bound_corpus(res, ctx, bst):
+    """the Example C15_dec_nonvacuous of coq/Properties/C15.v through the real CSV reader (per-share cost 10/3,
+    5-for-2 split: the gain of the sale of 2 shares is rounded differently in the two reports)"""
+    def row(day, act, sh=None, aps=None, com=None, split=None):
+        r = {"sec": "FOO", "td": core.BASE_DAY + day - 2, "sd": core.BASE_DAY + day, "act": act,
+             "cur": None, "rate": None, "af": "Default"}
+        for key, v in (("sh", sh), ("aps", aps), ("com", com)):
+            if v is not None:
+                r[key] = (v, Fraction(v))
+        if split:
+            r["split"] = split
+        return r
+    pre = [row(100, "Buy", "3", "3", "1"), row(200, "Sell", "1", "5", "0")]
+    post = [row(300, "Buy", "2", "1", "0"), row(400, "RoC", aps="0.1"), row(500, "Sell", "2", "4", "0.5"),
+            row(600, "Sell", "1", "7", "0")]
+    f = Fraction(5, 2)
+    a = {"rows": pre + post, "inits": {}}
+    b = {"rows": pre + [row(250, "Split", split=("5", "2"))] + [scale_row(r, f) for r in post], "inits": {}}
+    before = bst["st"]["rows_with_different_rounding"]
+    proved_bound_pass(res, ctx, corecheck.run_cases(ctx, [a]), corecheck.run_cases(ctx, [b]), [(2, 1, f, ("5", "2"), False)],
+                      bst, expect=(1, 1))
+    bst["st"]["corpus_pairs"] += 1
+    if bst["st"]["pairs_inside"] != 1 or bst["st"]["rows_with_different_rounding"] == before:
+        bst["diffs"].append((None, "corpus pair: not inside the class, or no row is rounded differently (the Coq Example has one)"))
+
+
+def proved_bound_report(res, bst):
+    st = bst["st"]
+    if bst["diffs"] and not res.violations:
+        hc, d = bst["diffs"][0]
+        res.violation("broken-correspondence", "proved split-neutrality bound: " + d,
+                      {"theorem_or_projection": "C15_dec_split_neutral_bound on the extracted code / class of entry 2 (dectransfer)",
+                       "input": hc, "difference": d, "differing_cases": len(bst["diffs"])}, found_input=False)
+    res.coverage["proved_rounding_bound"] = {
+        "theorem": "C15_dec_split_neutral_bound: paired rows i / i' of the two rounded reports within ((i+1) + (i'+1)) * cR k",
+        "pairs_evaluated": st["pairs_evaluated"],
+        "pairs_inside_class_and_hypotheses": st["pairs_inside"],
+        "pairs_outside_class": st["outside-class"],
+        "pairs_outside_hypotheses (opening position, two splits, whole-number-only reverse split later)": st["outside-hypotheses"],
+        "pairs_not_decomposed_as_pre_split_post": st["not-decomposed"],
+        "rows_checked_against_proved_bound": st["rows_checked"],
+        "rows_rounded_differently_in_the_two_reports": st["rows_with_different_rounding"],
+        "k_histogram": {k_: v for k_, v in sorted(st.items()) if k_.startswith("k=")},
+        "largest_bound_applied": float(bst.get("max_bound", Fraction(0))),
+        "largest_difference_over_bound": float(bst.get("max_ratio", Fraction(0))),
+        "corpus_pairs": st["corpus_pairs"],
+    }
